@@ -159,7 +159,17 @@ fn gen_coef(rng: &mut Rng) -> f64 {
         7 => rng.uniform(1.0, 9.0) * 1e-21,
         8 => (rng.uniform(0.0, 100.0) * 100.0).round() / 100.0,
         9 => *rng.pick(&[10.0, 100.0, 1000.0, 0.5, 0.05, 0.005, 0.0049999, 0.995, 0.9999999, 1.0000001, 9.5, 99.5, 1e15, 123456789.125]),
-        10 => f64::from_bits(rng.next() % 0x7fe0_0000_0000_0000).abs().min(1e300),
+        10 => {
+            if rng.chance(1, 2) {
+                f64::from_bits(rng.next() % 0x7fe0_0000_0000_0000).abs().min(1e300)
+            } else {
+                // next to 1, 0 and the powers of ten, at every distance 10^-1..10^-17 and on both sides (unit
+                // elision, zero skipping and digit trimming must use exact tests, not tolerances)
+                let base = *rng.pick(&[1.0f64, 1.0, 1.0, 0.0, 10.0, 0.1, 100.0]);
+                let d = rng.uniform(0.3, 0.99) * 10f64.powi(-(rng.range(1, 17) as i32));
+                (base + if rng.chance(1, 2) { d } else { -d }).abs()
+            }
+        }
         _ => rng.uniform(0.0, 10.0),
     };
     if rng.chance(2, 5) { -mag } else { mag }
@@ -227,11 +237,17 @@ pub fn generate(seed: u64, thorough: bool, emit: &mut dyn FnMut(String)) {
         if i % 2 == 0 {
             let len = 1 + rng.below(6) as usize;
             let cs: Vec<f64> = (0..len)
-                .map(|_| match rng.below(6) {
+                .map(|_| match rng.below(8) {
                     0 => 1.0,
                     1 => -1.0,
                     2 => 0.0,
                     3 => rng.uniform(-1e-5, 1e-5),
+                    6 | 7 => {
+                        // next to +-1: between a tenth of a unit and ten units of the fifth decimal
+                        let d = rng.uniform(0.1, 9.9) * 1e-6 * if rng.chance(1, 2) { 1.0 } else { 10.0 };
+                        let v = 1.0 + if rng.chance(1, 2) { d } else { -d };
+                        if rng.chance(1, 2) { v } else { -v }
+                    }
                     _ => gen_coef(&mut rng),
                 })
                 .collect();
